@@ -1,8 +1,10 @@
 import Driver.C01
 import Driver.C06
 import Driver.C07
+import Driver.C08
 import Driver.C11
 import Driver.C13
+import Driver.C18
 
 namespace Driver
 def dispatch (p : String) (rest : List String) : String :=
@@ -10,7 +12,9 @@ def dispatch (p : String) (rest : List String) : String :=
   | "C01" => C01.handle rest
   | "C06" => C06.handle rest
   | "C07" => C07.handle rest
+  | "C08" => C08.handle rest
   | "C11" => C11.handle rest
   | "C13" => C13.handle rest
+  | "C18" => C18.handle rest
   | _ => "bad unknown-property " ++ p
 end Driver
